@@ -19,6 +19,7 @@ import (
 	"strconv"
 	"sync"
 	"sync/atomic"
+	"time"
 
 	"github.com/fabiolb/fabio/proxy/gzip"
 	"verif/harness/hx"
@@ -30,6 +31,7 @@ import (
 //	wh           w.WriteHeader(Code)
 //	w            w.Write(bytes): Hex when given, otherwise Len bytes derived from Seed (Kind 0 random, 1 text)
 //	fl           if f, ok := w.(http.Flusher); ok { f.Flush() } — whatever writer the handler was given
+//	rc           http.NewResponseController(w).Flush() — how httputil.ReverseProxy flushes (follows Unwrap())
 type Op struct {
 	Op   string `json:"op"`
 	K    string `json:"k,omitempty"`
@@ -76,11 +78,12 @@ type Gunzip struct {
 }
 
 type Resp struct {
-	Status int         `json:"status"`
-	Hdr    [][2]string `json:"hdr"` // canonical name, value; sorted by name, values in wire order; Date dropped
-	Body   Blob        `json:"body"`
-	Gunzip *Gunzip     `json:"gunzip"` // set when the response says Content-Encoding: gzip
-	Err    string      `json:"err,omitempty"`
+	Status  int         `json:"status"`
+	Hdr     [][2]string `json:"hdr"` // canonical name, value; sorted by name, values in wire order; Date dropped
+	Body    Blob        `json:"body"`
+	Gunzip  *Gunzip     `json:"gunzip"`            // set when the response says Content-Encoding: gzip
+	Trailer [][2]string `json:"trailer,omitempty"` // trailer fields the client received after the body
+	Err     string      `json:"err,omitempty"`
 }
 
 type Oracle struct {
@@ -153,6 +156,14 @@ func script(in *In, chunks [][]byte, up *bytes.Buffer, nw *int, probe *bool, mir
 				}
 				if ok {
 					f.Flush()
+				}
+			case "rc":
+				var err error
+				if probe != nil {
+					err = http.NewResponseController(w).Flush()
+					*probe = err == nil
+				} else if mirror {
+					http.NewResponseController(w).Flush()
 				}
 			case "w":
 				b := chunks[ci]
@@ -240,10 +251,19 @@ func server() *httptest.Server {
 		}))
 		srv.Config.ErrorLog = log.New(io.Discard, "", 0) // "superfluous WriteHeader" is part of the scripts
 		srv.Start()
+	})
+	return srv
+}
+
+var clientOnce sync.Once
+
+// theClient never touches Content-Encoding and keeps its connections (few sockets, reused).
+func theClient() *http.Client {
+	clientOnce.Do(func() {
 		tr := &http.Transport{DisableCompression: true, MaxIdleConnsPerHost: 128}
 		client = &http.Client{Transport: tr, CheckRedirect: func(*http.Request, []*http.Request) error { return http.ErrUseLastResponse }}
 	})
-	return srv
+	return client
 }
 
 func mkReq(in *In, url string) (*http.Request, error) {
@@ -294,7 +314,7 @@ func doSrv(in *In, path string, id string) Resp {
 		return Resp{Err: err.Error(), Hdr: [][2]string{}}
 	}
 	r.Header.Set("X-Verif-Case", id)
-	resp, err := client.Do(r)
+	resp, err := theClient().Do(r)
 	if err != nil {
 		return Resp{Err: "client: " + err.Error(), Hdr: [][2]string{}}
 	}
@@ -305,6 +325,27 @@ func doSrv(in *In, path string, id string) Resp {
 		out.Err = "read: " + err.Error()
 	}
 	return out
+}
+
+// signalDone closes done when h has returned (or panicked) for the first time.
+func signalDone(h http.Handler, done chan struct{}) http.Handler {
+	var once sync.Once
+	return http.HandlerFunc(func(w http.ResponseWriter, r *http.Request) {
+		defer once.Do(func() { close(done) })
+		h.ServeHTTP(w, r)
+	})
+}
+
+// waitDone: the request may never have reached the handler (a refused request): do not wait for ever.
+func waitDone(done chan struct{}, failed bool) {
+	d := 5 * time.Second
+	if failed {
+		d = 100 * time.Millisecond
+	}
+	select {
+	case <-done:
+	case <-time.After(d):
+	}
 }
 
 func doRec(in *In, h http.Handler) Resp {
@@ -318,25 +359,21 @@ func doRec(in *In, h http.Handler) Resp {
 	return finish(res.StatusCode, res.Header, rec.Body.Bytes())
 }
 
-var reCache sync.Map
-
-func compilePattern(p string) (*regexp.Regexp, error) {
-	if v, ok := reCache.Load(p); ok {
-		return v.(*regexp.Regexp), nil
-	}
-	re, err := regexp.Compile(p)
-	if err != nil {
-		return nil, err
-	}
-	reCache.Store(p, re)
-	return re, nil
-}
+// compilePattern: a fresh *regexp.Regexp per case, so that a case never depends on what earlier cases left behind
+// in anything keyed on the expression (a replay must reproduce on its own).
+func compilePattern(p string) (*regexp.Regexp, error) { return regexp.Compile(p) }
 
 func runCase(in *In) (*Out, error) {
 	re, err := compilePattern(in.Pattern)
 	if err != nil {
 		return nil, err
 	}
+	return runCaseWith(in, re, func(inner http.Handler) http.Handler { return gzip.NewGzipHandler(inner, re) })
+}
+
+// runCaseWith: wrap builds the handler under test around the scripted upstream handler (a new NewGzipHandler per
+// case, or one long-lived handler whose inner handler is swapped — stream c17.seq).
+func runCaseWith(in *In, re *regexp.Regexp, wrap func(inner http.Handler) http.Handler) (*Out, error) {
 	var chunks [][]byte
 	total := 0
 	for _, o := range in.Ops {
@@ -345,7 +382,7 @@ func runCase(in *In) (*Out, error) {
 			if !validToken(o.K) || !validValue(o.V) {
 				return nil, fmt.Errorf("header op %q %q", o.K, o.V)
 			}
-		case "fl":
+		case "fl", "rc":
 		case "wh":
 			if !validCode(o.Code, in.Layer) {
 				return nil, fmt.Errorf("status %d", o.Code)
@@ -370,16 +407,21 @@ func runCase(in *In) (*Out, error) {
 	out := &Out{}
 	switch in.Layer {
 	case "rec":
-		out.Got = doRec(in, gzip.NewGzipHandler(script(in, chunks, nil, nil, &canFlush, false), re))
+		out.Got = doRec(in, wrap(script(in, chunks, nil, nil, &canFlush, false)))
 		out.Base = doRec(in, script(in, chunks, &up, &nw, nil, canFlush))
 	case "srv":
+		// the client has the whole response of a HEAD request (or of a flushed one) before the handler has returned:
+		// wait for the handler itself before reading what it recorded (probe, up, nw)
 		id := strconv.FormatUint(caseSeq.Add(1), 10)
-		c := &srvCase{wrapped: gzip.NewGzipHandler(script(in, chunks, nil, nil, &canFlush, false), re)}
+		gotDone, baseDone := make(chan struct{}), make(chan struct{})
+		c := &srvCase{wrapped: signalDone(wrap(script(in, chunks, nil, nil, &canFlush, false)), gotDone)}
 		cases.Store(id, c)
 		defer cases.Delete(id)
 		out.Got = doSrv(in, "/w", id)
-		cases.Store(id, &srvCase{wrapped: c.wrapped, bare: script(in, chunks, &up, &nw, nil, canFlush)})
+		waitDone(gotDone, out.Got.Err != "")
+		cases.Store(id, &srvCase{wrapped: c.wrapped, bare: signalDone(script(in, chunks, &up, &nw, nil, canFlush), baseDone)})
 		out.Base = doSrv(in, "/b", id)
+		waitDone(baseDone, out.Base.Err != "")
 	default:
 		return nil, fmt.Errorf("layer %q", in.Layer)
 	}
